@@ -202,6 +202,7 @@ def run(tier):
         b = common.compile_sy(art["sylt"], dict(FILES.get(name, {}), **{"main.sy": "pr: fn *X -> void : external\n" + plain}), extra=["--no-std"]); nat += 1
         if (a[0] == 0) != (b[0] == 0): fnd.report("annotation-changes-acceptance:" + name, "native: annotated exit %d, unannotated exit %d (%s)" % (a[0], b[0], (a[2] + b[2])[-200:].replace("\n", " ")), {"annotated.sy": text, "unannotated.sy": plain})
         elif a[0] == 0 and a[1] != b[1]: fnd.report("annotation-changes-code:" + name, "native: the emitted Lua differs between the annotated and the unannotated spelling", {"annotated.sy": text, "unannotated.sy": plain})
+    nat += corpus_unannotated(art, fnd)
     cov = {"states": max(1, tot["paths"]), "transitions": max(1, tot["queries"]), "traces_validated_against_impl": nat, "samples": samples or [{"note": "none"}], "templates": len(jobs), "mir_statements": tot["steps"],
            "functions_encoded": ["name_resolution::resolve", "dependency::initialization_order", "typechecker::solve", "intermediate::compile"],
            "bounds": {"annotation_sites_per_template": "<= 7 (all subsets)", "templates": list(TEMPLATES)}, "known_findings_seen": sorted(fnd.seen_known)}
@@ -211,6 +212,27 @@ def run(tier):
                           "tokenizer/parser run natively on the annotated text; absence is modelled on the AST exactly as the parser represents it (Implied / Resolved(Unknown))"], time.time() - t0, len(fnd.violations))
     print("C08: %d templates, %d annotation subsets, %d queries, %d native pairs, wall %.1fs" % (len(jobs), tot["paths"], tot["queries"], nat, time.time() - t0))
     return rc
+
+
+def corpus_unannotated(art, fnd):
+    """every accepted program of tests/**/*.sy that annotates variable definitions: the spelling without them must be accepted too and give the same bytes"""
+    import os, shutil, subprocess, tempfile
+    from luasym import runner
+    work = tempfile.mkdtemp(prefix="c08c_", dir=common.SCRATCH); n = 0
+    try:
+        shutil.copytree(common.repo_path("tests"), os.path.join(work, "tests"))
+        for f in runner.corpus(os.path.join(work, "tests")):
+            text = open(f, errors="surrogateescape").read(); plain = unannotated(text)
+            if plain == text or os.path.basename(f) == "exports.sy": continue
+            base = subprocess.run([art["sylt"], "-o", "-", f], cwd=work, capture_output=True, text=True, errors="surrogateescape", timeout=120)
+            if base.returncode != 0: continue
+            g = os.path.join(os.path.dirname(f), "c08_" + os.path.basename(f)); open(g, "w", errors="surrogateescape").write(plain)
+            r = subprocess.run([art["sylt"], "-o", "-", g], cwd=work, capture_output=True, text=True, errors="surrogateescape", timeout=120); os.remove(g); n += 1
+            rel = os.path.relpath(f, os.path.join(work, "tests"))
+            if r.returncode != 0: fnd.report("annotation-changes-acceptance:corpus", "tests/%s is accepted, without its variable annotations it is rejected: %s" % (rel, r.stdout[-200:].replace("\n", " ")), {"annotated.sy": text, "unannotated.sy": plain})
+            elif re.sub(r"on line \d+", "on line N", r.stdout) != re.sub(r"on line \d+", "on line N", base.stdout): fnd.report("annotation-changes-code:corpus", "tests/%s: the emitted Lua differs without the variable annotations" % rel, {"annotated.sy": text, "unannotated.sy": plain})
+    finally: shutil.rmtree(work, ignore_errors=True)
+    return n
 
 
 def unannotated(text):
